@@ -632,7 +632,9 @@ func c09MemSeqChild(quick bool, only []string) int {
 				if refused && !strings.Contains(strings.Join(r.errs, " "), "would exceed memory") {
 					return fmt.Sprintf("step %d: %s failed with %q", pos, act, r.errs)
 				}
-				if !big && refused {
+				if !big && refused && level != "low" {
+					// (under the low limit an earlier, unguarded copy - the update of the shared array - may have used the
+					// room up: a refusal then is the guard doing its job)
 					return fmt.Sprintf("step %d: %s refused under limit %s", pos, act, level)
 				}
 				_ = x.step("del(a)")
